@@ -223,10 +223,24 @@ def r3_zip_enumerate(text):
             eb = f'{Y}[{idx}]' if rb else f'&{Y}[{idx}]'
             new_header = (f'let n__{idx} = if {X}.len() < {Y}.len() {{ {X}.len() }} else {{ {Y}.len() }}; '
                           f'for {idx} in 0..n__{idx} {{ let ({A}, {B}) = ({ea}, {eb});')
+        elif enum and expr.endswith('.iter_mut()'):
+            # `for (I, W) in X.iter_mut().enumerate() { .. *W .. }` => `for I in 0..X.len() { .. X[I] .. }`
+            X = expr[:-len('.iter_mut()')]
+            if not re.match(r'^\w+$', pat):
+                raise Unsupported('R3: iter_mut element pattern ' + pat)
+            cb = match_close(toks, ob)
+            body = text[toks[ob].end:toks[cb].start]
+            if re.search(r'(?<![*\w])' + re.escape(pat) + r'\b', body):
+                raise Unsupported('R3: iter_mut element used other than as *' + pat)
+            body2 = re.sub(r'\*' + re.escape(pat) + r'\b', f'{X}[{idx}]', body)
+            nl = header.count('\n')
+            text = (text[:toks[kf].start] + ('\n' * nl) + f'for {idx} in 0..{X}.len() {{' + body2 + text[toks[cb].start:])
+            n += 1
+            continue
         else:
-            if not enum or not expr.endswith('.iter()'):
+            if not enum or not (expr.endswith('.iter()') or expr.endswith('.into_iter()')):
                 raise Unsupported('R3: iterator expression ' + expr)
-            X = expr[:-len('.iter()')]
+            X = expr[:-len('.iter()')] if expr.endswith('.iter()') and not expr.endswith('.into_iter()') else expr[:-len('.into_iter()')]
             mp = re.match(r'^(&?)(\w+)$', pat)
             if not mp:
                 raise Unsupported('R3: enumerate element pattern ' + pat)
@@ -356,6 +370,22 @@ def r18_bool_bitand(text):
         text = text[:m.start()] + f'{{ let l__{n} = {m.group(1)}; let r__{n} = {m.group(2)}; l__{n} && r__{n} }}' + text[m.end():]
 
 
+def r20_iter_skip(text):
+    """`for &W in X.iter().skip(K) {` => `for s__N in K..X.len() { let W = X[s__N];`"""
+    n = 0
+    while True:
+        m = re.search(r'(?m)^(\s*)for &(\w+) in ([A-Za-z_][A-Za-z0-9_]*)\.iter\(\)\.skip\((\w+)\) \{[ \t]*$', text)
+        if not m:
+            # the form left by R1: `for W__r in X.iter().skip(K) { let W = *W__r;`
+            m = re.search(r'(?m)^(\s*)for (\w+)__r in ([A-Za-z_][A-Za-z0-9_]*)\.iter\(\)\.skip\((\w+)\) \{ let \2 = \*\2__r;[ \t]*$', text)
+        if not m:
+            return text, n
+        n += 1
+        ind, w, x, k = m.groups()
+        i = f's__{n}'
+        text = text[:m.start()] + f'{ind}for {i} in {k}..{x}.len() {{ let {w} = {x}[{i}];' + text[m.end():]
+
+
 def r10_windows2(text):
     """`for W in X.windows(2) {` => `for w__N in 0..(if X.len() >= 2 { X.len() - 1 } else { 0 }) { let W = [X[w__N], X[w__N + 1]];`
     (Verus has no specification of slice::Windows; for Copy elements W[0], W[1] read the same values)."""
@@ -417,7 +447,7 @@ def r7_param_patterns(text):
     return _apply_edits(text, edits), n
 
 
-RULES = [('R0', r0_visibility_and_stats), ('R1', r1_ref_patterns), ('R7', r7_param_patterns), ('R8', r8_assert_eq), ('R9', r9_subslice_copy), ('R10', r10_windows2), ('R11', r11_collect), ('R12', r12_subslice_to_subslice), ('R13', r13_copied_take), ('R15', r15_iter_all_eq), ('R16', r16_map_collect_tail), ('R17', r17_match_arm_ref_guard), ('R18', r18_bool_bitand),
+RULES = [('R0', r0_visibility_and_stats), ('R1', r1_ref_patterns), ('R7', r7_param_patterns), ('R8', r8_assert_eq), ('R9', r9_subslice_copy), ('R10', r10_windows2), ('R11', r11_collect), ('R12', r12_subslice_to_subslice), ('R13', r13_copied_take), ('R15', r15_iter_all_eq), ('R16', r16_map_collect_tail), ('R17', r17_match_arm_ref_guard), ('R18', r18_bool_bitand), ('R20', r20_iter_skip),
          ('R2', r2_array_literal_loops), ('R3', r3_zip_enumerate)]
 
 
